@@ -16,10 +16,12 @@ package c05
 
 import (
 	"bytes"
+	"encoding/binary"
 	"fmt"
 	"net/http"
 	"net/http/httptest"
 	"net/url"
+	"runtime"
 	"strings"
 	"testing"
 	"time"
@@ -87,7 +89,19 @@ func serve(t *testing.T, method, path, rawQuery, ct, ce string, body []byte, pro
 	}
 	rec := httptest.NewRecorder()
 	what := fmt.Sprintf("%s %s?%s (Content-Type %q, Content-Encoding %q, %d body bytes)", method, path, trimTo(rawQuery, 200), ct, ce, len(body))
+	small := len(body) <= smallBody && len(rawQuery) <= 2048
+	var m0, m1 runtime.MemStats
+	if small {
+		runtime.ReadMemStats(&m0)
+	}
 	bounded(what, func() { st.h.Router.ServeHTTP(rec, req) })
+	if small {
+		runtime.ReadMemStats(&m1)
+		if d := m1.TotalAlloc - m0.TotalAlloc; d > allocBound {
+			fuzzStand = nil
+			t.Fatalf("C05: %s (answered %d) allocated %d MiB (bound %d MiB): an announced size is trusted before it is checked", what, rec.Code, d>>20, allocBound>>20)
+		}
+	}
 	var prec *httptest.ResponseRecorder
 	var exp []inssvc.Expect
 	if probe {
@@ -326,6 +340,14 @@ func FuzzHandler(f *testing.F) {
 			q = string(c.Target)[j+1:]
 		}
 		f.Add(uint8(ri), c.header("Content-Type"), c.header("Content-Encoding"), q, c.Body)
+	}
+	// tiny bodies announcing huge ones, on the routes that un-snappy the body themselves
+	for ri, rd := range routes {
+		if rd.name == "loki-push" || strings.HasPrefix(rd.name, "prom-") {
+			for _, size := range announcedSizes {
+				f.Add(uint8(ri), "application/x-protobuf", "", "", append(binary.AppendUvarint(nil, size), 0))
+			}
+		}
 	}
 	f.Fuzz(func(t *testing.T, route uint8, ct, ce, query string, body []byte) {
 		rd := routes[int(route)%len(routes)]
